@@ -154,18 +154,25 @@ def check_table(ctx):
                           bad is not None)
 
 
-def find_value_mismatch(model, canon, num, spaces, limit=4096):
+def find_value_mismatch(model, canon, num, spaces, limit=1024, rng=None):
     """compare the canonical delta polynomial with <Phi|ops|Phi> for every
-    assignment of the indices; returns a failing assignment or None"""
+    assignment of the indices (a random sample of `limit` assignments if
+    there are more); returns a failing assignment or None"""
     ids = sorted(spaces)
     ranges = []
+    total = 1
     for k in ids:
         sp = spaces[k]
         ranges.append([o for o in range(model.n)
                        if sp == "general" or
                        (sp == "occ") == bool(model.ref & (1 << o))])
+        total *= len(ranges[-1])
+    if total > limit and rng is not None:
+        combos = (tuple(rng.choice(r) for r in ranges) for _ in range(limit))
+    else:
+        combos = itertools.product(*ranges)
     n = 0
-    for combo in itertools.product(*ranges):
+    for combo in combos:
         env = dict(zip(ids, combo))
         lhs = U.value_of_canon(canon, spaces, env, model.ref)
         rhs = U.vev_bits([(c, env[k]) for c, k in num], model.ref)
@@ -207,6 +214,10 @@ def captured_strings(ctx, quick):
         if not quick:
             gs.energy(3)
             gs.amplitude(2, "pphh", "ijab")
+            isr = adcgen.IntermediateStates(gs, "pp")
+            m = adcgen.SecularMatrix(isr)
+            m.isr_matrix_block(1, "ph,ph", ("ia", "jb"))
+            m.isr_matrix_block(1, "ph,pphh", ("ia", "jkbc"))
     except Exception:
         ctx.note("derivation for capturing strings failed: " +
                  traceback.format_exc()[-500:])
@@ -241,12 +252,12 @@ def check_strings(ctx):
     if not quick:
         for s in itertools.product(small_ops, repeat=4):
             strings.append(("exh", list(s)))
-    n_rand = 260 if quick else 1500
+    n_rand = 260 if quick else 3000
     for n in range(n_rand):
         length = rng.choice([2, 4, 4, 6, 6, 6, 8, 8, 10, 3, 5, 7] if quick else
                             [2, 4, 6, 6, 8, 8, 10, 10, 12, 3, 5, 9])
         strings.append(("rand", U.gen_string(rng, length, pool)))
-    n_big = 0 if quick else 12
+    n_big = 0 if quick else 24
     for n in range(n_big):
         strings.append(("big", U.gen_string(
             rng, rng.choice([12, 14]), pool,
@@ -306,8 +317,8 @@ def check_strings(ctx):
         ok2 = ctx.obligation(f"contract {src} {key}", got == want,
                              f"library {got} model {want}")
         bad = None
-        if isinstance(got, dict) and len(ops) > 0 and len(spaces) <= 6:
-            bad = find_value_mismatch(model, got, num, spaces)
+        if isinstance(got, dict) and len(ops) > 0:
+            bad = find_value_mismatch(model, got, num, spaces, rng=rng)
             ctx.obligation(f"value {src} {key}", bad is None, str(bad))
         if not (ok1 and ok2) or bad is not None:
             n_caught += 1
@@ -450,7 +461,7 @@ def check_wicks(ctx):
     from adcgen.rules import Rules
     pool = U.index_pool()
     model = U.OrbModel(rng.randrange(1 << 30))
-    n_cases = 90 if quick else 450
+    n_cases = 90 if quick else 900
     rule_cases, rule_info = [], []
     n_viol = 0
     for n in range(n_cases):
@@ -460,7 +471,7 @@ def check_wicks(ctx):
         case, contracted, free = U.gen_wicks_case(
             rng, pool, n_ops, label=f"w{n}", free_general=free_general)
         has_free_gen = any(x.space == "general" for x in free)
-        if len(contracted) > 7:
+        if len(contracted) > (7 if quick else 6):
             continue
         try:
             expr = case.expr()
@@ -563,6 +574,54 @@ def check_wicks(ctx):
             rule_cases.append(f"rules_keep {coq_rules(rules_d)} "
                               f"{adcio.coq_expr(pts)}")
             rule_info.append((desc, rules_d, sd, terms, with_rules))
+    # sums of fully contracted products: wicks distributes over Add
+    for n in range(12 if quick else 60):
+        parts = []
+        for k in range(rng.choice([2, 2, 3])):
+            case, contracted, free = U.gen_wicks_case(
+                rng, pool, rng.choice([2, 4, 4, 6]), label=f"s{n}_{k}",
+                p_contract=1.0)
+            if not free and len(contracted) <= 6:
+                parts.append((case, contracted))
+        if len(parts) < 2:
+            continue
+        expr = Add(*[c.expr() for c, _ in parts])
+        desc = " + ".join(c.describe() for c, _ in parts)
+        for sd in (False, True):
+            try:
+                res = wicks(expr, simplify_kronecker_deltas=sd)
+            except Exception as ex:
+                if has_operator_power(expr):
+                    report_operator_power(ctx, desc, ex)
+                    continue
+                ctx.obligation(f"wicks runs {desc}", False, repr(ex))
+                ctx.violation(f"C01:wicks:exception:{desc}",
+                              f"wicks raised {ex!r}", {"input": desc}, True)
+                continue
+            ictx = adcio.IdxCtx()
+            ref = 0
+            for case, contracted in parts:
+                cterm = adcio.conv_term(Mul(case.coef, *case.tensors), ictx)
+                groups = [(is_no, [(isinstance(o, Fd), ictx.conv(o.args[0]))
+                                   for o in g]) for is_no, g in case.groups]
+                ref = (ref + U.reference_value(
+                    model, cterm, groups, {},
+                    [ictx.conv(x) for x in contracted])) % numeric.P
+            try:
+                got = model.tm.eval_expr(adcio.conv_expr(res, ictx), {})
+            except adcio.Unsupported as ex:
+                got = f"unsupported: {ex}"
+            ctx.case(key=("sum", desc, sd), nontrivial=(res != 0),
+                     kind="wicks:sum:" + ("deltas" if sd else "plain"),
+                     sample={"input": desc[:300], "result": str(res)[:200]})
+            if not ctx.obligation(f"wicks value of a sum {desc} {sd}",
+                                  got == ref, f"{got} vs {ref}"):
+                ctx.violation(f"C01:wicks:sum:{sd}:{desc}",
+                              "value of wicks(sum) differs from the sum of "
+                              "the expectation values",
+                              {"input": desc, "deltas": sd,
+                               "result": str(res), "wicks_value": got,
+                               "determinant_space_value": ref}, True)
     vals, errs = ctx.coq_eval("rules", rule_cases, header=COQ_HEADER,
                               shard=40)
     for (desc, rules_d, sd, terms, with_rules), v in zip(rule_info, vals):
@@ -802,13 +861,63 @@ def check_no(ctx):
 
 
 def run(ctx):
-    check_no(ctx)
-    check_table(ctx)
-    check_strings(ctx)
-    check_wicks(ctx)
-    check_special(ctx)
+    times = {}
+    for f in (check_no, check_table, check_strings, check_wicks,
+              check_special):
+        t0 = time.time()
+        f(ctx)
+        times[f.__name__] = round(time.time() - t0, 1)
+    ctx.extra["phase_seconds"] = times
 
 
 def replay(ctx, rep):
-    print(rep)
-    return 0
+    """re-execute a recorded violation: operator strings are rebuilt from the
+    key, the fixed inputs of the known findings are re-run; everything else
+    re-runs the whole check with the recorded seed"""
+    import ast
+    import json
+    key = rep.get("key", "")
+    print(json.dumps(rep.get("replay"), indent=1, default=str)[:4000])
+    if key.startswith("C01:string:") or key.startswith("C01:contraction:("):
+        tup = ast.literal_eval(key.split(":", 2)[2])
+        pool = U.index_pool()
+        byid = {}
+        ops = []
+        for cre, k, space in tup:
+            if k not in byid:
+                byid[k] = pool[space][len([1 for v in byid.values()
+                                           if v.space == space])]
+            ops.append((Fd if cre else F)(byid[k]))
+        idmap, spaces, num = U.number_ops(ops)
+        lit = U.coq_ops(num, spaces)
+        vals, errs = ctx.coq_eval("replay", [f"(prefilter {lit}, "
+                                             f"contract_out {lit})"],
+                                  header=COQ_HEADER)
+        v = "".join(vals[0].split())
+        want = U.canon_model(U.parse_wterms(v[v.index(",") + 1:]), spaces)
+        got = U.canon_sympy(fn("_contract_operator_string")(ops), idmap)
+        pf = bool(fn("_has_fully_contracted_contribution")(ops))
+        bad = find_value_mismatch(U.OrbModel(2), got, num, spaces)
+        print("string          :", ops)
+        print("library         :", got, "prefilter", pf)
+        print("model           :", want, "prefilter", v.startswith("(true"))
+        print("value mismatch  :", bad)
+        return 0 if (got == want and pf == v.startswith("(true")
+                     and bad is None) else 1
+    before = len(ctx.violations)
+    if key in (NO_GENERAL_KEY, OP_POWER_KEY, DELTA_FREE_KEY) or \
+            key.startswith("C01:special") or key.startswith("C01:spin"):
+        check_special(ctx)
+    elif key.startswith("C01:table"):
+        check_table(ctx)
+    elif key.startswith("C01:NO-flatten"):
+        check_no(ctx)
+    else:
+        import random
+        ctx.rng = random.Random(rep.get("seed", ctx.seed))
+        ctx.tier = rep.get("tier", ctx.tier)
+        run(ctx)
+    hit = [v for v in ctx.violations[before:] if v["key"] == key]
+    for v in hit[:3]:
+        print("REPRODUCED:", v["key"], "-", v["what"])
+    return 1 if hit else 0
